@@ -1,7 +1,8 @@
-// U8 harnesses: step contract of RateLimiter::enqueue on symbolic IEEE-754 state (C13).
-// Domain: limit in [1, 2^24] (exact f32 integers), duration a whole number of seconds in [1 s, 366 d] (what
-// `start()` can build with Duration::from_secs), arbitrary nanosecond instants, counters that are exact integers
-// <= limit (the representation invariant, itself preserved: see step_exact).
+// U8 harnesses: step contract of RateLimiter::enqueue on symbolic state, IEEE-754 arithmetic bit-precise (C13).
+// Domain: limit in [1, 2^24] (step_exact and the others) and (2^24, 2^32) (step_exact_big_limit), duration a whole number of
+// seconds in [1 s, 366 d] (what `start()` can build with Duration::from_secs), arbitrary nanosecond instants, counters that are
+// integers <= limit (the representation invariant, itself preserved: see step_exact).
+// `Cnt` is the counter type of the bucket tuple, read from the extracted struct on every run (`type Cnt = ..;` above).
 #[cfg(kani)]
 mod proofs {
     use super::*;
@@ -20,8 +21,15 @@ mod proofs {
         Duration::from_secs(s)
     }
     fn set_now(t: Instant) { unsafe { NOW = t.0; } }
+    fn cnt(n: u32) -> Cnt { n as Cnt }
+    trait Bits { fn bits(self) -> u64; }
+    impl Bits for f32 { fn bits(self) -> u64 { self.to_bits() as u64 } }
+    impl Bits for f64 { fn bits(self) -> u64 { self.to_bits() } }
+    impl Bits for u32 { fn bits(self) -> u64 { self as u64 } }
+    impl Bits for u64 { fn bits(self) -> u64 { self } }
+    impl Bits for usize { fn bits(self) -> u64 { self as u64 } }
 
-    struct Setup { rl: RateLimiter<u8>, key: u8, other: u8, limit_u: u32, m: u32, n: u32, w: Instant, now: Instant, other_bucket: (Instant, f32, f32), other_present: bool }
+    struct Setup { rl: RateLimiter<u8>, key: u8, other: u8, limit_u: u32, m: u32, n: u32, w: Instant, now: Instant, other_bucket: (Instant, Cnt, Cnt), other_present: bool }
 
     /// limiter with the key's bucket (w, m, n) present and possibly one other key with an arbitrary bucket
     fn setup(max_limit: u32, min_limit: u32) -> Setup {
@@ -40,13 +48,13 @@ mod proofs {
         let other_present: bool = kani::any();
         let ow = any_instant();
         kani::assume(ow <= now);
-        let ol: f32 = kani::any();
-        let oc: f32 = kani::any();
+        let ol: Cnt = kani::any();
+        let oc: Cnt = kani::any();
         let other_bucket = (ow, ol, oc);
         let last_cleanup = any_instant();
         kani::assume(last_cleanup <= now);
-        let mut buckets: HashMap<u8, (Instant, f32, f32)> = HashMap::new();
-        buckets.slots[0] = Some((key, (w, m as f32, n as f32)));
+        let mut buckets: HashMap<u8, (Instant, Cnt, Cnt)> = HashMap::new();
+        buckets.slots[0] = Some((key, (w, cnt(m), cnt(n))));
         if other_present { buckets.slots[1] = Some((other, other_bucket)); }
         set_now(now);
         // built by the real constructor (so that fields a refactoring adds are initialised by it), then put into the symbolic state
@@ -66,12 +74,12 @@ mod proofs {
         let d = s.rl.duration;
         let (m2, n2) = if age >= 2 * d { (0, 0) } else if age >= d { (s.n, 0) } else { (s.m, s.n) };
         let b = *s.rl.buckets.get(&s.key).expect("bucket of the key stays");
-        assert!(b.1 == m2 as f32, "C13.step.last_is_rolled_counter");
+        assert!(b.1 == cnt(m2), "C13.step.last_is_rolled_counter");
         if ok {
             assert!(n2 < s.limit_u, "C13.step.admitted_only_below_limit");
-            assert!(b.2 == (n2 + 1) as f32, "C13.step.admission_counts_one");
+            assert!(b.2 == cnt(n2 + 1), "C13.step.admission_counts_one");
         } else {
-            assert!(b.2 == n2 as f32, "C13.step.rejection_consumes_nothing");
+            assert!(b.2 == cnt(n2), "C13.step.rejection_consumes_nothing");
         }
         assert!(b.0 == if age >= d { s.now } else { s.w }, "C13.step.window_start");
         kani::cover!(ok, "admitted");
@@ -86,7 +94,7 @@ mod proofs {
         let ok = s.rl.enqueue(s.key);
         if idle {
             assert!(ok, "C13.idle.readmitted");
-            assert!(*s.rl.buckets.get(&s.key).unwrap() == (s.now, 0.0, 1.0), "C13.idle.clean_bucket");
+            assert!(*s.rl.buckets.get(&s.key).unwrap() == (s.now, cnt(0), cnt(1)), "C13.idle.clean_bucket");
         }
         kani::cover!(idle, "idle case reachable");
     }
@@ -102,7 +110,7 @@ mod proofs {
         s.rl.buckets.slots[1] = None;
         let ok = s.rl.enqueue(k2);
         assert!(ok, "C13.fresh.admitted");
-        assert!(*s.rl.buckets.get(&k2).unwrap() == (s.now, 0.0, 1.0), "C13.fresh.bucket");
+        assert!(*s.rl.buckets.get(&k2).unwrap() == (s.now, cnt(0), cnt(1)), "C13.fresh.bucket");
         kani::cover!(true, "reachable");
     }
 
@@ -118,7 +126,7 @@ mod proofs {
             match s.rl.buckets.get(&s.other) {
                 Some(b) => {
                     assert!(b.0 == s.other_bucket.0, "C13.other.window_untouched");
-                    assert!(b.1.to_bits() == s.other_bucket.1.to_bits() && b.2.to_bits() == s.other_bucket.2.to_bits(), "C13.other.counters_untouched");
+                    assert!(b.1.bits() == s.other_bucket.1.bits() && b.2.bits() == s.other_bucket.2.bits(), "C13.other.counters_untouched");
                     if ok && due { assert!(s.now.saturating_duration_since(b.0) < d * 2, "C13.cleanup.survivors_are_recent"); }
                 }
                 None => {
@@ -131,15 +139,24 @@ mod proofs {
         kani::cover!(ok && due && s.other_present, "cleanup with another key");
     }
 
-    /// the same step contract for limits above 2^24, where f32 cannot count: expected to FAIL (open known finding)
+    /// the same step contract for limits above 2^24, where an f32 cannot count (x + 1.0 == x from 16777216 on): a counter kept
+    /// in f32 fails `C13.step.admission_counts_one.big_limit` (the defect repaired by "fix: count visits in integers")
     #[kani::proof]
     fn step_exact_big_limit() {
-        let mut s = setup(u32::MAX, (1 << 24) + 1);
+        let mut s = setup(u32::MAX - 1, (1 << 24) + 1);
         let ok = s.rl.enqueue(s.key);
         let age = s.now.saturating_duration_since(s.w);
         let d = s.rl.duration;
-        let n2 = if age >= d { 0 } else { s.n };
+        let (m2, n2) = if age >= 2 * d { (0, 0) } else if age >= d { (s.n, 0) } else { (s.m, s.n) };
         let b = *s.rl.buckets.get(&s.key).unwrap();
-        if ok { assert!(b.2 == (n2 + 1) as f32 && b.2 > n2 as f32, "C13.step.admission_counts_one.big_limit"); }
+        assert!(b.1 == cnt(m2), "C13.step.last_is_rolled_counter.big_limit");
+        if ok {
+            assert!(n2 < s.limit_u, "C13.step.admitted_only_below_limit.big_limit");
+            assert!(b.2 == cnt(n2 + 1) && b.2 > cnt(n2), "C13.step.admission_counts_one.big_limit");
+        } else {
+            assert!(b.2 == cnt(n2), "C13.step.rejection_consumes_nothing.big_limit");
+        }
+        kani::cover!(ok, "admitted");
+        kani::cover!(!ok, "rejected");
     }
 }
